@@ -177,7 +177,7 @@ where
     }
 
     unsafe fn deserialize_components_by_row<R_, V>(
-        mut components: &mut [(*mut u8, usize)],
+        components: &mut [(*mut u8, usize)],
         length: usize,
         seq: &mut V,
         mut identifier_iter: archetype::identifier::Iter<R_>,
@@ -188,15 +188,17 @@ where
         R_: Sealed<'de>,
         V: SeqAccess<'de>,
     {
+        let mut pushed_column = None;
+        let remaining_components;
         if
         // SAFETY: `identifier_iter` is guaranteed by the safety contract of this method to
         // return a value for every component within the registry.
         unsafe { identifier_iter.next().unwrap_unchecked() } {
-            let component_column =
+            let (component_column, rest) =
                 // SAFETY: `components` is guaranteed to have the same number of values as there
                 // set bits in `identifier_iter`. Since a bit must have been set to enter this
                 // block, there must be at least one component column.
-                unsafe { components.get_unchecked_mut(0) };
+                unsafe { components.split_first_mut().unwrap_unchecked() };
             let mut v = ManuallyDrop::new(
                 // SAFETY: The pointer and capacity are guaranteed by the safety contract of this
                 // method to define a valid `Vec<C>` of length `length`.
@@ -226,11 +228,10 @@ where
             component_column.0 = v.as_mut_ptr().cast::<u8>();
             component_column.1 = v.capacity();
 
-            components =
-                // SAFETY: `components` is guaranteed to have the same number of values as there
-                // set bits in `identifier_iter`. Since a bit must have been set to enter this
-                // block, there must be at least one component column.
-                unsafe { components.get_unchecked_mut(1..) };
+            pushed_column = Some(component_column);
+            remaining_components = rest;
+        } else {
+            remaining_components = components;
         }
 
         // SAFETY: At this point, one bit of `identifier_iter` has been consumed. There are two
@@ -250,16 +251,37 @@ where
         // Furthermore, regardless of whether the bit was set or not, `R` is one component smaller
         // than `(C, R)`, and since `identifier_iter` has had one bit consumed, it still has the
         // same number of bits remaining as `R` has components remaining.
-        unsafe {
+        let result = unsafe {
             R::deserialize_components_by_row(
-                components,
+                remaining_components,
                 length,
                 seq,
                 identifier_iter,
                 current_index + 1,
                 identifier,
             )
+        };
+
+        if result.is_err() {
+            if let Some(component_column) = pushed_column {
+                // The row could not be completed. The caller only knows about the `length`
+                // complete rows, so the value pushed for this row has to be dropped here.
+                let mut v = ManuallyDrop::new(
+                    // SAFETY: The column was a valid `Vec<C>` of length `length` and one value
+                    // was pushed to it above, with the pointer and capacity stored afterwards.
+                    unsafe {
+                        Vec::<C>::from_raw_parts(
+                            component_column.0.cast::<C>(),
+                            length + 1,
+                            component_column.1,
+                        )
+                    },
+                );
+                drop(v.pop());
+            }
         }
+
+        result
     }
 
     unsafe fn expected_row_component_names<R_>(
